@@ -103,6 +103,9 @@ HOSTILE += [
     "d[a,  # c0\n  b,  # c1\n  # c2\n  c]  # c3\nt = (k,  # c4\n     l)  # c5",
     "match s:  # c0\n    case (a |  # c1\n          b |  # c2\n          c):  # c3\n        pass\n    case [p,  # c4\n          q]:  # c5\n        pass",
 ]
+HOSTILE += [  # parameter lists with every kind of parameter on its own commented line
+    "def f(\n    a,  # c0\n    /,  # c1\n    b=1,  # c2\n    *c,  # c3\n    d,  # c4\n    **e,  # c5\n):  # c6\n    pass\ng = lambda a, *b, c=1: 0  # c7",
+]
 HOSTILE += [  # '#' inside string literals in front of real comments
     "v = [  # c0\n    '#a',  # c1\n    '# b',  # c2\n]  # c3\nd = {'#k': '#v',  # c4\n     k: \"# w\"}  # c5\nf('#', x)  # c6",
 ]
@@ -548,6 +551,10 @@ def classify_loss(src, tree, op, lost):
                 if isinstance(par, (ast.Tuple, ast.MatchSequence)) and i == 0 and fld in ('elts', 'patterns') and \
                         src.split('\n')[par.lineno - 1][O.byte2char(src.split('\n')[par.lineno - 1], par.col_offset)] not in '([':
                     out['undelimited_seq_head_delete'] = True
+        if k in ('remove', 'cut') and path and path[-1][0] in ('vararg', 'kwarg') and path[-1][1] is None:
+            out['star_param_delete'] = True
+        if k == 'delattr' and op.get('field') in ('vararg', 'kwarg'):
+            out['star_param_delete'] = True
         if k == 'replace' and path and path[-1][0] == 'orelse':
             par = O.get_path(tree, path[:-1])
             code0 = (op.get('code') or [None])[0]
